@@ -26,7 +26,7 @@ func init() {
 			"multiple-choice questions with n = 2..4 (thorough 5) choices x all assignments of outputs {matches, differs-1, differs-2} x ALL non-empty subsets of marked letters over a..(n+1), " +
 			"plain and sealed, built in memory (WithRawMD) and run through the real renderer: Verify() is nil iff the marked set equals the set of matching choices (single-choice: and has one " +
 			"element); (4b) choices that are programs whose output differs from the question's only in white space or in the final newline; (4c) a text question and an image question over " +
-			"the same program files verified after each of seven histories of earlier verifications in the same process, all marked subsets; (4d) questions verified by parse errors (verification: parse-error / no-parse-error) over an archive of n = 2..3 programs x all assignments {parses, does not parse} x all non-empty subsets of a..(n+1): accepted iff the marked programs are exactly those with (without) a parse error; (1b) seal/unseal of the front matter answer " +
+			"the same program files verified after each of seven histories of earlier verifications in the same process, all marked subsets; (1c) all histories of length <= 5 over {Seal (good / malformed key), Unseal (right / other key), Verify, edit the answer to a wrong / the right marking} on one question object against a two-state model; (4d) questions verified by parse errors (verification: parse-error / no-parse-error) over an archive of n = 2..3 programs x all assignments {parses, does not parse} x all non-empty subsets of a..(n+1): accepted iff the marked programs are exactly those with (without) a parse error; (1b) seal/unseal of the front matter answer " +
 			"for every answer text incl. leading/trailing white space. Non-trivial = corrupted envelopes and questions whose marked set differs from the matching set.",
 		Assumptions: []string{"the randomness of the sealing step (crypto/rand session key, OAEP seed) is exercised with fresh values per run, not enumerated",
 			"multi-byte corruptions are not enumerated (GCM authenticates the whole AES part, OAEP the whole RSA block)"},
@@ -151,7 +151,9 @@ func runC20(w *fw.Worker) {
 	// (1c) histories on one front matter object: a rejected Seal / Unseal (malformed or non-matching key) leaves the object as it was,
 	// so the following call with the right key still works; all sequences of length <= 3 over {seal-bad, seal-good, unseal-wrong, unseal-right}
 	if w.Shard == 0 || w.NShards == 1 {
-		ops := []string{"seal-bad", "seal-good", "unseal-wrong", "unseal-right"}
+		// ... and, to length 5, with the answer read (verify) and edited (to a wrong / back to the right marking) in between: what is
+		// read after a Seal is what was sealed last, not what an earlier read saw
+		ops := []string{"seal-bad", "seal-good", "unseal-wrong", "unseal-right", "verify", "edit-wrong", "edit-right"}
 		var hist func(prefix []string)
 		hist = func(prefix []string) {
 			if len(prefix) > 0 {
@@ -162,10 +164,13 @@ func runC20(w *fw.Worker) {
 					return c20FrontmatterHistory(d)
 				})
 			}
-			if len(prefix) == 3 {
+			if len(prefix) == 5 {
 				return
 			}
-			for _, op := range ops {
+			for oi, op := range ops {
+				if len(prefix) >= 3 && oi < 4 && oi%2 == 0 {
+					continue // beyond length 3 the rejected calls (bad / wrong key) are left out
+				}
 				hist(append(append([]string(nil), prefix...), op))
 			}
 		}
@@ -381,10 +386,19 @@ func c20FrontmatterHistory(d c20Input) *fw.Violation {
 	}
 	otherPriv := c20GeneratedKeys[0][1]
 	sealed := false
+	cur := d.Answer // the answer the object stands for (d.Answer is the right marking)
 	for i, op := range d.Ops {
 		var err error
 		wantErr := false
 		switch op {
+		case "verify":
+			err = m.Verify()
+			wantErr = cur != d.Answer
+		case "edit-wrong", "edit-right":
+			if !sealed { // the author edits the plain answer; a sealed one has nothing to edit
+				cur = map[string]string{"edit-wrong": "b", "edit-right": d.Answer}[op]
+				m.Frontmatter.Answer = cur
+			}
 		case "seal-bad":
 			err = m.Frontmatter.Seal("not a key")
 			wantErr = !sealed // sealing a sealed answer is a no-op whatever the key
@@ -404,6 +418,9 @@ func c20FrontmatterHistory(d c20Input) *fw.Violation {
 		}
 		step := fmt.Sprintf("step %d (%s)", i+1, op)
 		if wantErr && err == nil {
+			if op == "verify" {
+				return viol("fm-history-verify", step+": a wrongly marked question ("+cur+") is rejected", "accepted")
+			}
 			return viol("fm-history-accepts-bad-key", step+": rejected", "accepted")
 		}
 		if !wantErr && err != nil {
@@ -412,8 +429,8 @@ func c20FrontmatterHistory(d c20Input) *fw.Violation {
 		if m.IsSealed() != sealed {
 			return viol("fm-history-state", fmt.Sprint(step, ": sealed=", sealed), fmt.Sprint("sealed=", m.IsSealed(), " answer=", m.Frontmatter.Answer))
 		}
-		if !sealed && m.Frontmatter.Answer != d.Answer {
-			return viol("fm-history-answer-lost", step+": answer "+d.Answer, fmt.Sprintf("%q", m.Frontmatter.Answer))
+		if !sealed && m.Frontmatter.Answer != cur {
+			return viol("fm-history-answer-lost", step+": answer "+cur, fmt.Sprintf("%q", m.Frontmatter.Answer))
 		}
 		if sealed && (m.Frontmatter.Answer != "" || m.Frontmatter.SealedAnswer == "") {
 			return viol("fm-history-state", step+": sealed-answer set, answer empty", fmt.Sprintf("answer=%q sealed=%q", m.Frontmatter.Answer, fw.Trunc(m.Frontmatter.SealedAnswer, 30)))
@@ -425,8 +442,11 @@ func c20FrontmatterHistory(d c20Input) *fw.Violation {
 			return viol("fm-history-final-unseal", "unseal with the right key succeeds", err.Error())
 		}
 	}
-	if err := m.Verify(); err != nil {
-		return viol("fm-history-verify", "the correctly marked question verifies", err.Error())
+	if m.Frontmatter.Answer != cur {
+		return viol("fm-history-answer-lost", "final unseal: answer "+cur, fmt.Sprintf("%q", m.Frontmatter.Answer))
+	}
+	if err := m.Verify(); (err == nil) != (cur == d.Answer) {
+		return viol("fm-history-verify", fmt.Sprint("the question verifies exactly when its marking is the right one: accept=", cur == d.Answer), fmt.Sprint(err))
 	}
 	return nil
 }
